@@ -561,10 +561,18 @@ impl DrawState {
             term.write_str(line.as_ref())?;
 
             if idx + 1 == self.lines.len() {
-                // For the last line of the output, keep the cursor on the right terminal
-                // side so that next user writes/prints will happen on the next line
-                let last_line_filler = line_height.as_usize() * term_width - line.console_width();
-                term.write_str(&" ".repeat(last_line_filler))?;
+                if matches!(line, LineType::Bar(_)) {
+                    // For the last line of the output, keep the cursor on the right terminal
+                    // side so that next user writes/prints will happen on the next line
+                    let last_line_filler =
+                        line_height.as_usize() * term_width - line.console_width();
+                    term.write_str(&" ".repeat(last_line_filler))?;
+                } else {
+                    // No bar line follows the text: it is not part of what the next draw
+                    // erases, so finish it with a newline. Leaving the cursor at the right
+                    // edge would make a following empty line share the row of this text.
+                    term.write_line("")?;
+                }
             }
         }
 
